@@ -403,7 +403,10 @@ void SimpleString::replace(const char* to, const char* with)
     if (tolen == 0) {
         return;
     }
-    size_t c = count(to);
+    size_t c = 0;
+    for (const char* found = StrStr(getBuffer(), to); found; found = StrStr(found + tolen, to)) {
+        c++;
+    }
     if (c == 0) {
         return;
     }
